@@ -61,6 +61,52 @@ pub open spec fn pushed_query(old: Seq<u8>, new: Seq<u8>, k: Seq<u8>, e: Seq<u8>
     &&& new.subrange(old.len() as int + 2 + k.len() as int, new.len() as int) =~= e
 }
 
+// PLAIN text of a parameter value (ToPlain::to_plain; conjure-object). Uninterpreted: the wrappers below are
+// verified for whatever text the value renders to.
+pub trait Plain {}
+pub uninterp spec fn plain_of<T>(v: T) -> Seq<char>;
+
+pub open spec fn escs<T>(vs: Seq<T>) -> Seq<Seq<u8>> {
+    Seq::new(vs.len(), |j: int| esc(plain_of(vs[j])))
+}
+
+// `new` is `old` followed by one query pair per element of `es`, in order (defined from the back: the loop appends)
+pub open spec fn pushed_list(old: Seq<u8>, new: Seq<u8>, k: Seq<u8>, es: Seq<Seq<u8>>) -> bool
+    decreases es.len()
+{
+    if es.len() == 0 {
+        new =~= old
+    } else {
+        let m = new.len() - (2 + k.len() + es.last().len());
+        &&& m >= old.len()
+        &&& pushed_list(old, new.subrange(0, m), k, es.drop_last())
+        &&& pushed_query(new.subrange(0, m), new, k, es.last())
+    }
+}
+
+pub proof fn lemma_pushed_list_snoc(old: Seq<u8>, cur: Seq<u8>, new: Seq<u8>, k: Seq<u8>, es: Seq<Seq<u8>>, e: Seq<u8>)
+    requires pushed_list(old, cur, k, es), pushed_query(cur, new, k, e), cur.len() >= old.len()
+    ensures pushed_list(old, new, k, es.push(e)), new.len() >= old.len()
+{
+    let es2 = es.push(e);
+    assert(es2.last() == e);
+    assert(es2.drop_last() =~= es);
+    let m = new.len() - (2 + k.len() + e.len());
+    assert(m == cur.len());
+    assert(new.subrange(0, m) =~= cur);
+}
+
+pub proof fn lemma_pushed_list_len(old: Seq<u8>, new: Seq<u8>, k: Seq<u8>, es: Seq<Seq<u8>>)
+    requires pushed_list(old, new, k, es)
+    ensures new.len() >= old.len()
+    decreases es.len()
+{
+    if es.len() > 0 {
+        let m = new.len() - (2 + k.len() + es.last().len());
+        lemma_pushed_list_len(old, new.subrange(0, m), k, es.drop_last());
+    }
+}
+
 pub struct UriBuilder {
     buf: BytesMut,
     in_path: bool,
@@ -98,6 +144,49 @@ impl UriBuilder {
             // old contents ++ one separator byte ++ key bytes ++ one byte ++ escape of the value; nothing else
             pushed_query(old(self).bytes(), final(self).bytes(), encode_utf8(key@), esc(value@)),
             !final(self).in_path_spec(),
+//@@ end
+
+    // ASSUMED (one-line delegation through `&dyn Plain` / ToPlain::to_plain, which neither verifier can execute):
+    // push_query_parameter(key, value) == push_query_parameter_raw(key, plain text of value). The real parameter type
+    // is `&dyn Plain`; the call sites in the helpers below are textually identical for a generic `&T`.
+    #[verifier::external_body]
+    pub fn push_query_parameter<T: Plain>(&mut self, key: &str, value: &T)
+        ensures
+            pushed_query(old(self).bytes(), final(self).bytes(), encode_utf8(key@), esc(plain_of(*value))),
+            !final(self).in_path_spec(),
+    { unimplemented!() }
+
+//@@ fn UriBuilder::push_optional_query_parameter vfn=UriBuilder::push_optional_query_parameter
+//@@ spec
+        ensures
+            // absent: nothing at all changes; present: exactly one pair
+            value.is_none() ==> final(self).bytes() =~= old(self).bytes() && final(self).in_path_spec() == old(self).in_path_spec(),
+            value.is_some() ==> pushed_query(old(self).bytes(), final(self).bytes(), encode_utf8(key@), esc(plain_of(value.unwrap()))) && !final(self).in_path_spec(),
+//@@ end
+
+//@@ fn UriBuilder::push_list_query_parameter vfn=UriBuilder::push_list_query_parameter
+//@@ subst for value in values ==> for value in it: values
+//@@ spec
+        ensures
+            // one pair per supplied value, in order, nothing else; an empty list leaves the builder untouched
+            pushed_list(old(self).bytes(), final(self).bytes(), encode_utf8(key@), escs(values@)),
+            final(self).in_path_spec() == (old(self).in_path_spec() && values@.len() == 0),
+//@@ loop 0
+            invariant
+                pushed_list(old(self).bytes(), self.bytes(), encode_utf8(key@), escs(values@.take(it.index@ as int))),
+                self.bytes().len() >= old(self).bytes().len(),
+                self.in_path_spec() == (old(self).in_path_spec() && it.index@ == 0),
+                0 <= it.index@ <= values@.len(),
+//@@ loopbody 0
+            let ghost cur = self.bytes();
+            let ghost i = it.index@ as int;
+//@@ loopend 0
+            proof {
+                lemma_pushed_list_snoc(old(self).bytes(), cur, self.bytes(), encode_utf8(key@), escs(values@.take(i)), esc(plain_of(values@[i])));
+                assert(escs(values@.take(i + 1)) =~= escs(values@.take(i)).push(esc(plain_of(values@[i]))));
+            }
+//@@ post
+        proof { assert(values@.take(values@.len() as int) =~= values@); }
 //@@ end
 
 //@@ fn UriBuilder::build vfn=UriBuilder::build
